@@ -46,8 +46,10 @@ impl Database for SledDB {
     }
 
     fn load(config: Self::Config) -> PmtreeResult<Self> {
-        let db = match config.open() {
-            Ok(db) => db,
+        // Wait for the storage lock as `new` does: a database that is still locked by an instance
+        // being dropped must not be reported as missing, or the caller creates a new tree over it
+        let db = match Self::new_with_tries(config.clone(), 0) {
+            Ok(db) => db.0,
             Err(e) => {
                 return Err(PmtreeErrorKind::DatabaseError(
                     DatabaseErrorKind::CustomError(format!("Cannot load database: {e}")),
